@@ -20,6 +20,7 @@ import (
 	"github.com/google/uuid"
 
 	"go.6river.tech/mmmbbb/actions"
+	"go.6river.tech/mmmbbb/services"
 	"go.6river.tech/mmmbbb/grpc/pubsubpb"
 
 	"verif/mc/report"
@@ -468,6 +469,64 @@ func runC19(t *testing.T, tier string) int {
 			}
 			synctest.Wait()
 			actions.WakeAllInternal()
+		}
+
+		// ---------------- the SERVICE that owns the pushers (services/http-push.go): a
+		// pusher that ended on its own (here: an endpoint without a scheme, the POST
+		// cannot even be built) is replaced on the next round, so that once the
+		// endpoint is corrected the message is pushed after its backoff and acknowledged
+		{
+			if err := env.w.Restore(env.base); err != nil {
+				t.Fatal(err)
+			}
+			ctx := context.Background()
+			if _, err := env.w.Sub.ModifyPushConfig(ctx, &pubsubpb.ModifyPushConfigRequest{Subscription: c19Sub, PushConfig: &pubsubpb.PushConfig{PushEndpoint: "127.0.0.1:1/no-scheme"}}); err != nil {
+				t.Fatal(err)
+			}
+			resp, err := env.w.Pub.Publish(ctx, &pubsubpb.PublishRequest{Topic: c19Topic, Messages: []*pubsubpb.PubsubMessage{{Data: []byte(`{"svc":1}`)}}})
+			if err != nil {
+				t.Fatal(err)
+			}
+			rt := &scriptedRT{open: map[int]*pendingPost{}}
+			oldT := http.DefaultTransport
+			http.DefaultTransport = rt
+			svc := services.VerifNewPushService(env.w.Client)
+			sctx, scancel := context.WithCancel(context.Background())
+			rounds := 0
+			round := func() {
+				if err := svc.Round(sctx); err != nil {
+					sink.add(report.Viol{Property: "C19", Check: "C19/push-service", Rule: "not-pushed", Text: "service round failed: " + err.Error(), Trace: []string{"push-service"}})
+				}
+				rounds++
+				synctest.Wait()
+			}
+			round() // starts a pusher for the malformed endpoint; it dies on its first message
+			time.Sleep(2 * time.Second)
+			synctest.Wait()
+			if _, err := env.w.Sub.ModifyPushConfig(ctx, &pubsubpb.ModifyPushConfigRequest{Subscription: c19Sub, PushConfig: &pubsubpb.PushConfig{PushEndpoint: "http://endpoint.invalid/fixed"}}); err != nil {
+				t.Fatal(err)
+			}
+			pushed := false
+			for i := 0; i < 6 && !pushed; i++ {
+				round() // harvests what ended, starts what is missing
+				time.Sleep(20 * time.Second)
+				synctest.Wait()
+				for _, p := range rt.openList() {
+					p.answer <- postAnswer{status: 204}
+					pushed = true
+				}
+				synctest.Wait()
+			}
+			orderRuns++
+			done, _, _ := env.completed(resp.MessageIds[0])
+			if !pushed || !done {
+				sink.add(report.Viol{Property: "C19", Check: "C19/push-service", Rule: "not-pushed", Text: fmt.Sprintf("a pusher ended on its own (endpoint without a scheme), the endpoint was corrected, the service ran %d more rounds over 2 minutes: POST seen=%v, message acknowledged=%v (%d pushers registered)", rounds-1, pushed, done, svc.Pushers()), Trace: []string{"push-service"}})
+			}
+			scancel()
+			svc.Stop()
+			synctest.Wait()
+			actions.WakeAllInternal()
+			http.DefaultTransport = oldT
 		}
 
 		// ---------------- envelope fidelity over SEQUENCES on one pusher: every field of
